@@ -603,8 +603,11 @@ def run_impl(c):
 
     k = c["kind"]
     if k in ("dump", "text", "attrs", "cli", "vobj"):
-        m = build(c["m"])
-        canon = enc(m.model_dump())
+        try:
+            m = build(c["m"])
+            canon = enc(m.model_dump())
+        except Exception as e:  # the model no longer accepts / dumps a document of the format as generated here
+            return {"build_error": f"{type(e).__name__}: {str(e)[:200]}"}
     if k == "dump":
         return {"canon": canon, "doc": enc(m.model_dump(mode="json"))}
     if k == "text":
@@ -680,8 +683,10 @@ def c_res_md(r) -> str:
 def coq_case(c, o):
     k = c["kind"]
     gv = cstr(SC()["gv"])
-    if k in ("dump", "text", "attrs", "cli", "vobj") and o["canon"] != c["m"]:
-        raise HarnessError(f"generator is not canonical: {c['m']!r} dumps as {o['canon']!r}")
+    if k in ("dump", "text", "attrs", "cli", "vobj") and ("build_error" in o or o["canon"] != c["m"]):
+        # the object does not exist / is not the one the document denotes: the model and the code disagree on the
+        # format itself (a field added, removed or renamed); reported as a correspondence mismatch
+        return f"(IDump {c_md(c['m'])}, OJson (JStr {cstr('object-differs-from-its-canonical-document')}))"
     if k == "dump":
         return f"(IDump {c_md(c['m'])}, OJson {to_jv(o['doc'])})"
     if k == "cli":
@@ -707,6 +712,8 @@ def coq_case(c, o):
 # ------------------------------------------------------------------ oracle (from the property text)
 def oracle(c, o):
     k = c["kind"]
+    if "build_error" in o:
+        return None
     if k in ("vobj", "vdoc"):
         for w in ("pub", "exp"):
             if o[w] == "unusable-schema":
@@ -749,6 +756,8 @@ def nontrivial(c, o):
 def describe(c, o):
     k = c["kind"]
     s = f"{k}/{c.get('block')}"
+    if "build_error" in o:
+        return s + "/build-error"
     if k == "vdoc":
         s += f"/{c['label'].split(':')[0]}/pub={o['pub']}"
     elif k in ("parse", "read"):
